@@ -722,7 +722,7 @@ func main() {
 		"bounds":                map[string]int{"chain_length": chainLen, "heights_synced": chainLen - 1, "serving_peers_max": 3},
 	}, []string{
 		"a non-validator cannot produce a validator's signature, and no set of validators holding more than 2/3 of the power of a height signs two different blocks for that height",
-		"the syncing node is assembled by the harness exactly as angine.assembleStateMachine does for pbft: the verifier and executer closures are copied verbatim (a mutation of those two closures inside angine.go is therefore not reached; the mutation demos a2/a3 were applied to the copy); the application behind the hook events and the IBlockExecutable are the harness's toy implementations; the validator-set change is made in EndBlock by ValidatorSet.Update/Add as plugin.AdminOp.updateValidators does",
+		"the syncing node is assembled by the repository's own Angine.assembleStateMachine (build-tagged wrapper gemmill.VerifAssemble): block store, BlockchainReactor with its verifier and executer closures, pbft ConsensusState/reactor, mempool/reactor are those of a real node; the harness supplies in-memory databases, the p2p switch, a non-validator key and the event switch, and replaces the IBlockExecutable (Angine + plugins) by the toy executor the source chain was built with: the validator-set change is made in EndBlock by ValidatorSet.Update/Add as plugin.AdminOp.updateValidators does; scripted peers carry a sink reactor for the consensus and mempool channels",
 		"the source chain is produced by the harness with the call sequence of pbft createProposalBlock/finalizeCommit (types.MakeBlock, VoteSet.AddVote/MakeCommit over real signatures, ConsensusState.ValidateBlock, BlockStore.SaveBlock, State.Copy().ApplyBlock, Save), not by running consensus rounds; block times are fixed so that every worker rebuilds the identical chain (digest compared)",
 		"honest peers report their true height (which may grow while the node syncs), answer every request at once with the genuine block, and redial when the node drops them; the pool's peer timeout is lowered from 15 s to 3 s (scaled up after a calibration run on a slow machine) and the connection rate limit raised accordingly; no peer ever reports a height below 2 while responses are held (a pool at height 1 whose peers all report 1 is 'caught up')",
 		"real goroutines and timers: a stall is a violation only when the node applies no block for 30 s plus four peer timeouts (three status-refresh periods, the reactor's longest timer) while an honest peer with the whole chain stays available, reproduced in 5 of 5 re-runs; every violation candidate is re-run 5 times and reported only if all 5 show the same class; executions the harness could not set up (a peer timed out while its responses were held) are repeated, then counted as inconclusive",
